@@ -223,6 +223,7 @@ pub fn scenario_labels(case: &DispatchCase, cx: &mut Ctx) {
         "train_ends_its_run_over_three_or_more_segments",
     );
     cx.label_if(case.net.branch.is_some(), "y_junction");
+    cx.label_if(case.net.bypass.is_some(), "bypass_track_around_a_siding");
     cx.label_if(case.trains.iter().any(|t| t.branch) && case.trains.iter().any(|t| !t.branch), "trains_to_both_eastern_terminals");
     let e = case.trains.iter().filter(|t| t.east).count();
     cx.label_if(e > 0 && e < case.trains.len(), "both_directions");
